@@ -30,7 +30,7 @@ except Exception:   # pragma: no cover
     pass
 
 ID = "C20"
-RUNS = {"quick": 60_000, "thorough": 5_000_000}
+RUNS = {"quick": 45_000, "thorough": 5_000_000}
 SIM_TIME_UNIT = "operations on the Deferred"
 RULE = (
     "each run = a history of 1..7 operations on one Deferred in a simulator-chosen order -- add a pass-through "
@@ -101,14 +101,22 @@ def _exc(tape, n):
 def gen(tape):
     n = 1 + tape.draw("program", 7, "n-ops")
     ops = []
-    fired = False
+    fired = chained = inner_fired = False
     for i in range(n):
         menu = [(2, "cb"), (3, "no_result"), (3, "succeeded"), (3, "failed"), (2, "classify"), (2, "extract")]
         if not fired:
             menu += [(3, "fire"), (3, "fail")]
+            if not chained:
+                menu += [(1, "chain")]
+        elif chained and not inner_fired:
+            menu += [(3, "fire_inner")]
         op = tape.weighted("program", menu, "op")
         if op in ("fire", "fail"):
             fired = True
+        if op == "chain":
+            chained = True
+        if op == "fire_inner":
+            inner_fired = True
         ops.append([op, tape.chance("program", 1, 2, "inner-verdict") if op in ("succeeded", "failed") else None])
     return ops
 
@@ -131,12 +139,23 @@ def run_deferred_history(tape, out):
         handled = False               # failure inspected by succeeded()/failed() or extract_result
         tainted = False               # later result no longer specified
         seen_by_cb = []
+        nested = [None]               # a nested Deferred the result chain waits on
         n = 0
         for op, arg in ops:
             n += 1
             st = state[0]
             trace.append((op, st))
-            if op == "cb":
+            if op == "chain":
+                # a callback that returns a not-yet-fired Deferred: once d fires with a value its
+                # result is pending on that inner Deferred -- for every observer d has no result yet
+                nested[0] = defer.Deferred()
+                d.addCallback(lambda v, i=nested[0]: i)
+            elif op == "fire_inner":
+                if st == "paused":
+                    v = _value(tape, n)
+                    state[:] = ["value", v]
+                    nested[0].callback(v)
+            elif op == "cb":
                 rec = []
                 seen_by_cb.append(rec)
 
@@ -149,14 +168,17 @@ def run_deferred_history(tape, out):
                     return f
 
                 d.addCallbacks(cb, eb)
-                if st == "value" and not tainted:
+                if st == "value" and not tainted and nested[0] is None:
                     if rec != [("value", state[1])] or rec[0][1] is not state[1]:
                         out.violate("result-not-preserved", "callback-after-match", f"callback added after ops {trace} saw {rec}, original value {state[1]!r}")
             elif op == "fire":
                 v = _value(tape, n)
-                state[:] = ["value", v]
+                if nested[0] is not None:
+                    state[:] = ["paused", None]
+                else:
+                    state[:] = ["value", v]
                 d.callback(v)
-                if not tainted:
+                if not tainted and nested[0] is None:
                     for rec in seen_by_cb:
                         if len(rec) != 1 or rec[0][0] != "value" or rec[0][1] is not v:
                             out.violate("result-not-preserved", "callback-before-fire", f"ops {trace}: callback saw {rec}, fired with {v!r}")
@@ -169,10 +191,10 @@ def run_deferred_history(tape, out):
                         if len(rec) != 1 or rec[0][0] != "failure" or rec[0][1].value is not e:
                             out.violate("result-not-preserved", "errback-before-fail", f"ops {trace}: errback saw {rec}")
             elif op == "no_result":
-                if tainted and st != "unfired":
+                if tainted and st not in ("unfired", "paused"):
                     continue
                 mm = has_no_result().match(d)
-                want = st == "unfired"
+                want = st in ("unfired", "paused")
                 if (mm is None) != want:
                     out.violate("classifier-wrong", f"has_no_result-on-{st}", f"ops {trace}: has_no_result() gave {mm and mm.describe()}")
                 _describe_ok(mm, out)
@@ -214,7 +236,7 @@ def run_deferred_history(tape, out):
                 else:
                     res["succeeded"] = succeeded(ScriptedInner(True)).match(d) is None
                     res["failed"] = failed(ScriptedInner(True)).match(d) is None
-                want = {"unfired": "no_result", "value": "succeeded", "failure": "failed"}[st]
+                want = {"unfired": "no_result", "paused": "no_result", "value": "succeeded", "failure": "failed"}[st]
                 hits = sorted(k for k, v in res.items() if v)
                 if hits != [want]:
                     out.violate("classifier-count", f"{st}:{'+'.join(hits) or 'none'}", f"ops {trace}: classifiers matching {hits}, expected exactly [{want}]")
@@ -227,7 +249,7 @@ def run_deferred_history(tape, out):
                     got = ("notfired", None)
                 except BaseException as e:   # noqa
                     got = ("exc", e)
-                if st == "unfired":
+                if st in ("unfired", "paused"):
                     ok = got[0] == "notfired"
                 elif st == "value":
                     ok = got[0] == "value" and got[1] is state[1]
@@ -239,6 +261,8 @@ def run_deferred_history(tape, out):
                 if st == "failure":
                     handled = True
             # matching never fires anything
+            if state[0] == "paused" and nested[0].called:
+                out.violate("fired-by-match", op + ":inner", f"ops {trace}: the nested Deferred became called")
             if state[0] == "unfired" and d.called:
                 out.violate("fired-by-match", op, f"ops {trace}: Deferred became called")
         # drop all references and collect: an unhandled failure is logged, a handled one is not
